@@ -8,6 +8,7 @@ CONSTANTS
   MaxSize = 3
   RangeCheck = FALSE
   CorruptSizes <- MC_CorruptSizes
+  WithMarshal = TRUE
   CorruptOffsets <- MC_CorruptOffsets
 INVARIANTS DefinedIffShape NoPanic
 CONSTRAINT OneCorruption
